@@ -5,6 +5,7 @@ pub mod cx;
 pub mod ops;
 pub mod checks;
 pub mod checks2;
+pub mod checks3;
 pub mod corpus;
 
 use cx::Cx;
@@ -23,7 +24,7 @@ pub struct Entry {
 pub fn entry<T>(id: &'static str) -> Entry
 where
     T: Dom + Serialize + Deserialize + SerializeInner + DeserializeInner + TypeHash + AlignHash,
-    for<'a> DeserType<'a, T>: EpsView,
+    for<'a> DeserType<'a, T>: EpsView + Send + Sync,
 {
     Entry { id, ops: Box::new(Ops::<T>::new()) }
 }
@@ -44,6 +45,8 @@ pub fn run_check(t: &dyn TypeOps, check: &str, cx: &mut Cx) {
         "C14" => checks2::c14(t, cx, if deep { 2 } else { 1 }),
         "C15" => checks2::c15(t, cx),
         "C18" => checks2::c18(t, cx),
+        "C08" => checks3::c08(t, cx),
+        "C09" => checks3::c09(t, cx),
         other => panic!("unknown generic check {}", other),
     }
 }
